@@ -135,6 +135,25 @@ pub fn gen_streamcache(rng: &mut Rng, n: usize, thorough: bool) -> Vec<Case> {
             out.push((format!("stream any - P0,S{} {}", first_twin + 2, h), "clean=1|same-start".into()));
             out.push((format!("stream any - S{},P0,S{} {}", first_twin + 2, first_twin + 2, h), "clean=1|same-start".into()));
         }
+        // (d) header checks do not depend on the cache: a table section with a wrong sh_entsize whose byte range is
+        //     already cached (raw read first) must still be refused by the typed query, and the other way round
+        {
+            let fc = crate::gen3::rand_object_kind(rng, true, true);
+            let le = fc.obj.le;
+            for (i, sec) in fc.obj.secs.iter().enumerate() {
+                let q = match sec.sh_type { SHT_SYMTAB => "Y", SHT_DYNSYM => "D", SHT_GNU_VERSYM => "V0.1.2", SHT_DYNAMIC => "d", _ => continue };
+                let f = match fc.built.fields.iter().find(|f| f.name == format!("s{}.sh_entsize", i)) { Some(f) => f.clone(), None => continue };
+                let cur = get(&fc.built.bytes[f.off..f.off + f.width], le, f.width);
+                for v in [0u64, cur + 1, cur.saturating_sub(1), if cur == 24 { 16 } else { 24 }, cur * 2] {
+                    if v == cur { continue; }
+                    let mut b = fc.built.bytes.clone();
+                    put_at(&mut b, f.off, le, f.width, v);
+                    let h = hex(&b);
+                    out.push((format!("stream any - S{},{},{} {}", i, q, q, h), format!("clean=0|corrupt=s{}.sh_entsize={}|cached-first", i, v)));
+                    out.push((format!("stream any - {},S{},{} {}", q, i, q, h), format!("clean=0|corrupt=s{}.sh_entsize={}", i, v)));
+                }
+            }
+        }
     }
     out
 }
